@@ -663,12 +663,11 @@ func (g *wholeGen) plainBody() string {
 }
 
 /*
-the alt text of an attachment whose name has the wrong type is an error: the entry is shown
-
-	without a number while the next one skips a number (DESIGN.md §6 no. 12).  Such entries are
-	generated, but the count of the numbers is only judged on them when this is set.
+	An attachment whose label cannot be computed (a name of the wrong type, neither a name nor a
+	usable link) is shown as an error — with its number, like every other attachment (repaired
+	in the code: it used to be shown without one while the next attachment skipped that number).
+	Such entries are generated and the count of the numbers is judged on them.
 */
-var judgeUnnumberedAttachments = os.Getenv("VERIF_C12_UNNUMBERED_ATTACHMENT") != ""
 
 func (g *wholeGen) attachment() any {
 	r := g.r
@@ -706,19 +705,13 @@ func (g *wholeGen) attachment() any {
 		if usable {
 			g.expect(parsed.String(), parsed.String())
 		} else {
-			/* neither a name nor a link: an error line without a number */
-			if !judgeUnnumberedAttachments {
-				g.clean = false
-			}
+			/* neither a name nor a link: an error line, numbered */
 		}
 		if r.Intn(2) == 0 {
 			a["name"] = pick(r, []any{"", nil, "\x1b\x07"})
 		}
 	case 2:
 		a["name"] = pick(r, []any{7, true, []any{"n"}, map[string]any{}})
-		if !judgeUnnumberedAttachments {
-			g.clean = false
-		}
 	case 3:
 		a["name"] = l + " " + pick(r, []string{"x²", "\x1b[2J", "\u009b", "a\nb"})
 		g.clean, g.supers = false, true
